@@ -30,8 +30,11 @@ class P:
     kids = _logged("kids")
     ref = _logged("ref")
     d = _logged("d")
+    f = _logged("f")
+    fs = _logged("fs")
 
-    def __init__(self, a=0, b=0, items=None, kids=None, ref=None, d=None, name=""):
+    def __init__(self, a=0, b=0, items=None, kids=None, ref=None, d=None, name="", f=0.0, fs=frozenset()):
+        self.__dict__["_f"], self.__dict__["_fs"] = f, fs
         self.name = name
         self.a, self.b = a, b
         self.items = items if items is not None else []
